@@ -700,7 +700,13 @@ def corpus_cases():
 
 
 # ------------------------------------------------------------------ check entry points
+MAXREPORT = 6
+
+
 def report(ctx, tag, world, ops, bad):
+    if len(ctx.violations) >= MAXREPORT:     # a broken tree fails hundreds of sequences: a few replays are enough
+        ctx.cov["S"]["unreported_failures"] = ctx.cov["S"].get("unreported_failures", 0) + 1
+        return
     ctx.violation("%s: %s" % (tag, "; ".join(bad[:4])), {"kind": "sequence", "world": world, "ops": ops}, key="sequence")
 
 
